@@ -99,8 +99,11 @@ def state_eq(w, real, ref):
 
 
 # ------------------------------------------------------------------------------------------------
-def step(versions, shapes, P, combos, checks, only=None, hexshapes=False, ota_modes=("fixed",)):
-    """checks: subset of {'state', 'callback', 'reply', 'wellformed', 'sleep'}"""
+def step(versions, shapes, P, combos, checks, only=None, hexshapes=False, ota_modes=("fixed",),
+         unprescribed=None):
+    """checks: subset of {'state', 'callback', 'reply', 'wellformed', 'sleep'}.
+    unprescribed(w, ref_state, msg) -> True for inputs whose outcome the property does not fix:
+    for those only 'the pump does not raise' is checked."""
     def fn(w):
         from mysensors.message import Message
         from verifspec import refmodel as R
@@ -133,6 +136,8 @@ def step(versions, shapes, P, combos, checks, only=None, hexshapes=False, ota_mo
             sleeping_before = [nid for nid, n in ref["nodes"].items() if len(n["desired"]) > 0]
             parked_before = {id(nid): len(n["queue"]) for nid, n in ref["nodes"].items()}
             local_time = env.timegm([env.local], {})
+            free = unprescribed is not None and w.is_true(unprescribed(w, ref, msg))
+            pre_ota = {k: dict(v) for k, v in ref["ota"].items()} if free else None
             try:
                 rule, expected = w.call(R.ref_step, version, ref, msg, g.gw.metric, local_time)
             except Exception as exc:
@@ -144,6 +149,29 @@ def step(versions, shapes, P, combos, checks, only=None, hexshapes=False, ota_mo
             real = project(g.gw)
             out = C.emissions(g)
             w.goal("accepted")
+            if free:
+                # outcome not fixed by the property; what is fixed: no other node's session
+                # changes and the sender's session never moves backwards (started stays started,
+                # nothing re-enters 'requested'), so a finished node is not offered its config again
+                w.goal("unprescribed-input")
+                sender = msg[0]
+
+                def member(nid, d):
+                    return w.or_(*[w.eq(nid, k) for k in d]) if d else False
+                for store in ("requested", "unstarted", "started"):
+                    for nid in pre_ota[store]:
+                        w.check(w.or_(w.eq(nid, sender), member(nid, real["ota"][store])),
+                                f"firmware session of another node changed[{tag}]")
+                for nid in pre_ota["started"]:
+                    w.check(member(nid, real["ota"]["started"]),
+                            f"a node that was fetching blocks left the 'started' state[{tag}]")
+                for nid in real["ota"]["requested"]:
+                    w.check(member(nid, pre_ota["requested"]),
+                            f"firmware session moved backwards[{tag}]")
+                for nid in real["ota"]["unstarted"]:
+                    w.check(w.or_(member(nid, pre_ota["unstarted"]), member(nid, pre_ota["requested"])),
+                            f"firmware session moved backwards[{tag}]")
+                return
             w.goal(f"type-{tag.split('/')[0]}")
             is_wake = (version in ("2.0", "2.1") and tag == "internal/I_HEARTBEAT_RESPONSE") or \
                       (version == "2.2" and tag == "internal/I_PRE_SLEEP_NOTIFICATION")
